@@ -118,8 +118,75 @@ func (c *Compiler) Code() *Code {
 	return c.main
 }
 
-// Compile the given AST node and return the compiled code object.
+// Compile the given AST node and return the compiled code object. When the
+// same Compiler is used incrementally (as the REPL does) and a call fails, the
+// main code and its symbol table are restored to what they were before the
+// call, so that rejected input has no effect on what is compiled later.
 func (c *Compiler) Compile(node ast.Node) (*Code, error) {
+	snapshot := c.takeSnapshot()
+	code, err := c.compileNode(node)
+	if err != nil {
+		c.restoreSnapshot(snapshot)
+		return nil, err
+	}
+	return code, nil
+}
+
+// compilerSnapshot records the sizes of the append-only parts of the main code
+// and of its symbol table.
+type compilerSnapshot struct {
+	source       string
+	filename     string
+	funcIndex    int
+	instructions int
+	constants    int
+	names        int
+	children     int
+	symbols      int
+	symbolTables int
+}
+
+func (c *Compiler) takeSnapshot() compilerSnapshot {
+	return compilerSnapshot{
+		source:       c.main.source,
+		filename:     c.main.filename,
+		funcIndex:    c.funcIndex,
+		instructions: len(c.main.instructions),
+		constants:    len(c.main.constants),
+		names:        len(c.main.names),
+		children:     len(c.main.children),
+		symbols:      len(c.main.symbols.symbols),
+		symbolTables: len(c.main.symbols.children),
+	}
+}
+
+func (c *Compiler) restoreSnapshot(s compilerSnapshot) {
+	main := c.main
+	main.source = s.source
+	main.filename = s.filename
+	main.instructions = main.instructions[:s.instructions]
+	main.constants = main.constants[:s.constants]
+	main.names = main.names[:s.names]
+	main.children = main.children[:s.children]
+	main.loops = nil
+	main.pipeActive = false
+	table := main.symbols
+	kept := make(map[*Symbol]bool, s.symbols)
+	for _, symbol := range table.symbols[:s.symbols] {
+		kept[symbol] = true
+	}
+	for name, symbol := range table.symbolsByName {
+		if !kept[symbol] {
+			delete(table.symbolsByName, name)
+		}
+	}
+	table.symbols = table.symbols[:s.symbols]
+	table.children = table.children[:s.symbolTables]
+	c.funcIndex = s.funcIndex
+	c.current = main
+}
+
+func (c *Compiler) compileNode(node ast.Node) (*Code, error) {
 	c.failure = nil
 	if c.main.source == "" {
 		c.main.source = node.String()
